@@ -353,6 +353,10 @@ def run_case(case):
             kshift = max(1, int(round(nsp * float(rng.uniform(0.05, 0.3)))))
             applied[rng.choice(nsp, kshift, replace=False)] = rng.uniform(0.4, 3.0, kshift) * rng.choice([-1, 1], kshift)
         wfs = np.stack([fshift(tmpl, float(s), axis=-1) for s in applied])
+        if rng.random() < 0.5:
+            # every copy carries its own background noise (0.3 % of the peak): the delay can only be measured where the spike is - on the template's peak trace
+            wfs = wfs + rng.standard_normal(wfs.shape) * 0.003 * np.max(np.abs(tmpl))
+            res.count("noisy_clusters")
         try:
             out, sh = W.shift_waveform(wfs.copy())
             if majority:
